@@ -65,3 +65,41 @@ Theorem C13_cached_call_not_started :
     fpc s' = GTd /\ fps s' = fps s /\ fsy s' = fsy s /\ assoc_key (mem s') k = Some i.
 Proof. exact no_rerun. Qed.
 Print Assumptions C13_cached_call_not_started.
+
+(* ---- REFUTED on the code as it is: witnesses by computation on the executable models
+   (Proofs/Refute.v); each is a recorded finding (KNOWN_FINDINGS.txt) ---- *)
+From EL Require Model.Exec Model.ExecInv Model.StepExec Model.FileExec Model.FileSpec Model.CacheExec Proofs.FileSafe Proofs.FileRefute Proofs.CacheSafe Proofs.Refute.
+Module RefutedC13.
+Import Exec ExecInv StepExec FileExec FileSpec CacheExec FileSafe FileRefute CacheSafe Refute.
+Import ListNotations.
+
+(* finding D11: a call submitted again while the identical call is in flight is never recorded; its future stays pending for ever (the loop thread only polls) *)
+Theorem C13_refuted_duplicate_in_flight_never_recorded :
+  fcanon d11_cfg 2 = fcanon d11_cfg 1
+  /\ ftrace d11_cfg d11_pre d11_init = Some (d11_s0, trace_or d11_cfg d11_pre d11_init)
+  /\ nth_error (trace_or d11_cfg d11_pre d11_init) 5 = Some (FL (LGetNw 0 (Some (Task 1))))
+  /\ nth_error (trace_or d11_cfg d11_pre d11_init) 16 = Some (FL (LGetNw 0 (Some (Task 2))))   (* both taken *)
+  /\ nth_error (trace_or d11_cfg d11_pre d11_init) 17 = Some (FL (LTd 0))    (* nothing done for Task 2 *)
+  /\ fpc d11_s0 = GGet /\ mem d11_s0 = [(k1, 1)] /\ procd d11_s0 = [(k1, 1)] /\ map qpc (fps d11_s0) = [QBegin]
+  /\ frun d11_cfg d11_mid d11_s0 = Some d11_s1
+  /\ map qpc (fps d11_s1) = [QExit]                                          (* process 1 has finished *)
+  /\ fut d11_s1 1 = FRes 1
+  /\ fpc d11_s1 = GGet                                                       (* F is back at get *)
+  /\ mem d11_s1 = [(k1, 1)]
+  /\ forallb (fun e => negb (Nat.eqb (snd e) 2)) (mem d11_s1) = true         (* no entry for future 2 *)
+  /\ q0 (fbase d11_s1) = [] /\ qunf (getq (fbase d11_s1) 0) = 0
+  /\ fut d11_s1 2 = FPending
+  /\ main (fbase d11_s1) = MOp /\ ops (fbase d11_s1) = [OResult 2; ODrop]    (* the client: in result(2) *)
+  /\ outs (fbase d11_s1) = [XOk; XOk]
+  /\ fstep d11_cfg d11_s1 TM = None
+  /\ freach d11_cfg d11_init d11_s1
+  (* two steps later the system is in a state whose only step leads back to itself *)
+  /\ frun d11_cfg d11_end d11_s1 = Some d11_s2
+  /\ mem d11_s2 = [] /\ fpc d11_s2 = GGet /\ fut d11_s2 2 = FPending
+  /\ map qpc (fps d11_s2) = [QExit]
+  /\ fenabled d11_cfg d11_s2 = [TD]
+  /\ fstep d11_cfg d11_s2 TD = Some (d11_s2, FL (LGetNw 0 None))
+  /\ freach d11_cfg d11_init d11_s2.
+Proof. exact file_duplicate_in_flight_never_recorded. Qed.
+Print Assumptions C13_refuted_duplicate_in_flight_never_recorded.
+End RefutedC13.
